@@ -62,6 +62,12 @@ _struct_re = re.compile(r'([1-9][0-9]*)!([nac])')
 _country_modules = {}
 
 
+# verification hooks (off unless STDNUM_VERIF is set, see /verif/DESIGN.md)
+_vh = None
+if __import__('os').environ.get('STDNUM_VERIF'):  # pragma: no cover
+    import stdnum_verif_hooks as _vh
+
+
 def compact(number):
     """Convert the iban number to the minimal representation. This strips the
     number of any valid separators and removes surrounding whitespace."""
@@ -91,8 +97,12 @@ def _struct_to_re(structure):
 def _get_cc_module(cc):
     """Get the IBAN module based on the country code."""
     cc = cc.lower()
+    if _vh: _vh.event('iban', 'enter', cc)  # pragma: no cover
     if cc not in _country_modules:
+        if _vh: _vh.event('iban', 'miss', cc)  # pragma: no cover
         _country_modules[cc] = get_cc_module(cc, 'iban')
+        if _vh: _vh.event('iban', 'store', cc, _country_modules[cc])  # pragma: no cover
+    if _vh: _vh.event('iban', 'ret', cc, _country_modules[cc])  # pragma: no cover
     return _country_modules[cc]
 
 
